@@ -148,7 +148,8 @@ def _rand_value(rnd, depth):
 
 
 def _rand_map(rnd, depth, n):
-    keys = ["a", "b", "aa", "ab", "B", "ä", "é", "z", "key with space", "0", "1", "10", "😀", "_x", "", "A"]
+    keys = ["a", "b", "aa", "ab", "B", "ä", "é", "z", "key with space", "0", "1", "10", "😀", "_x", "", "A",
+            "\u00b5", "\u03bc", "x\u00b2", "x2", "e\u0301", "\ufb01t", "fit", "\u212b", "\u00c5", "\uff21", "\u1e9b\u0323"]   # not NFC/NFKC-stable next to their normal forms
     return {k: _rand_value(rnd, depth) for k in rnd.sample(keys, n)}
 
 
@@ -164,7 +165,7 @@ def run(ctx):
     project = signac.init_project(root)
     # ---- spec -> code ------------------------------------------------------------------------
     out = os.path.join(ctx.work, "cases.ndjson")
-    consts = {"MODE": '"universe"', "WIDTH": 1 if ctx.quick else 2, "TOPWIDTH": 3 if ctx.quick else 4, "NSAMPLE": 150 if ctx.quick else 1500}
+    consts = {"MODE": '"universe"', "WIDTH": 1 if ctx.quick else 2, "TOPWIDTH": 3 if ctx.quick else 4, "NSAMPLE": 100 if ctx.quick else 1500}
     cfgt = tlc.cfg(consts, invariants=["AsciiOnly", "KeysSorted"], postcondition="Export")
     r = tlc.run("jobid/JobId.tla", cfg_text=cfgt, workdir=ctx.work, seed=ctx.seed % 10**6, env={"CASES_OUT": out}, coverage=False, allow_violation=False)
     ctx.add_tlc("JobId universe", r)
